@@ -30,7 +30,7 @@ theorem padded_scan (cell : X → S → S) :
     rfl
 
 theorem layerPadded_refines (B T' : Nat) :
-    LayerRefines (X := X) (S := S) B (B :: List.replicate T' B) layerPadded := by
+    LayerRefines (X := X) (S := S) id B (B :: List.replicate T' B) layerPadded := by
   intro cell h0 x rev h0len hsh
   have hxne : x ≠ [] := by intro h; subst h; simp at hsh
   have hall : ∀ y ∈ x, y.length = h0.length := by
